@@ -571,6 +571,7 @@ struct CaptureSerializer : public Serialization::AbstrSerializer
 };
 
 static const int NFA_SYMS = 8;
+static void nfasRegisterAlphabet();
 static void initFaAlphabet()
 {
 	static bool done = false;
@@ -581,6 +582,7 @@ static void initFaAlphabet()
 		size_t c = (*transl)("a" + std::to_string(i));
 		if (c != static_cast<size_t>(i)) throw std::runtime_error("NFA alphabet numbering");
 	}
+	nfasRegisterAlphabet();       // x0..x3 and x of the start-symbol histories (kind nfas) right behind a0..a7
 	done = true;
 }
 
@@ -1677,6 +1679,7 @@ static string opLts(const vector<string>& a)
 #include "ops/op_glue.inc"
 #include "ops/op_cliargs.inc"
 #include "ops/op_ltsutil.inc"
+#include "ops/op_nfas.inc"
 
 // ---------------------------------------------------------------- API sweep (C20): every remaining public entry point of the four
 // encodings is called once on well-formed operands; each call may complete ('R'), throw NotImplementedException ('N') or
@@ -1818,6 +1821,7 @@ static string runCase(const string& kind, const vector<string>& args)
 	if (kind == "glue") return opGlue(args);
 	if (kind == "cliargs") return opCliargs(args);
 	if (kind == "ltsutil") return opLtsutil(args);
+	if (kind == "nfas") return opNfas(args);
 	return "BADKIND";
 }
 
